@@ -33,7 +33,7 @@ BUILTINS = ['params', 'params_no_bias', 'ops', 'ops_no_bias', 'gap8_latency']
 
 
 def budget(tier):
-    return {'runs': 6000, 'seconds': 50} if tier == 'quick' else {'runs': 400000, 'seconds': 900}
+    return {'runs': 8000, 'seconds': 50} if tier == 'quick' else {'runs': 400000, 'seconds': 900}
 
 
 # ----------------------------------------------------------------------------------------------
